@@ -138,3 +138,35 @@ PROPS["C01"]["mir"].append(ob("latest_entry_fold", "ob_storage", "latest_entry_f
 PROPS["C02"]["mir"] += [ob("read_all_merge_2x2", "ob_storage", "read_all_merge", kwargs={"B": 1, "Lb": 2}),
                         ob("read_all_merge_3x1", "ob_storage", "read_all_merge", kwargs={"B": 2, "Lb": 1}),
                         ob("read_all_merge_3x2", "ob_storage", "read_all_merge", tier="thorough", kwargs={"B": 2, "Lb": 2})]
+
+PROPS["C05"] = {
+    "level": "model_checking",
+    "kani": [
+        H("c05_crc_burst_n4", "data_checksum_audit rejects every non-zero XOR pattern (<= 32 bits) applied to a value of 1..4 bytes",
+          ["RecordHeader::data_checksum_audit", "crc::Crc<u32>::checksum (CRC32C)"], "value length 1..4 bytes, all patterns", covers=1, timeout=900),
+        H("c05_audit_exact_n3", "data_checksum_audit is Ok iff stored checksum == CRC32C(bytes)", ["RecordHeader::data_checksum_audit"],
+          "value length 0..3 bytes, all stored checksums", covers=2, timeout=600),
+        H("c05_partial_ser_equiv_head", "finalize_with_checksum patches offset+checksum into the pre-serialized head exactly as set_offset_checksum + serialize would",
+          ["PartiallySerializedRecord::finalize_with_checksum", "RecordHeader::set_offset_checksum", "RecordHeader::to_raw"],
+          "key length 2, all header field values and offsets", covers=1, timeout=1800, tier="thorough"),
+        H("c17_record_header_layout_k1", "record header byte layout / patch positions / decoder inverse (key length 1)",
+          ["RecordHeader::to_raw", "RecordHeader::from_raw", "RecordHeader::serialized_size", "blob_offset_offset", "checksum_offset"],
+          "key length 1, all field values", covers=1, timeout=600),
+    ],
+    "mir": [ob("entry_load_audits", "ob_record", "entry_load_audits"), ob("entry_load_data_audits", "ob_record", "entry_load_data_audits"),
+            ob("read_current_record_step", "ob_record", "read_current_record_step"),
+            ob("rawrecords_all_or_nothing", "ob_record", "rawrecords_all_or_nothing", kwargs={"N": 3}, thorough_kwargs={"N": 5})],
+    "assumptions": COMMON_K + COMMON_M + ["byte buffers are modelled as file ranges (offset, length): what is audited / returned is identified by where it was read from",
+                                          "Header::serialized_size is an uninterpreted function of the header (bincode outside)",
+                                          "outside: meta maps, the 80 KiB in-place/background threshold, bytes travelling through a real file"],
+}
+
+PROPS["C06"] = {
+    "level": "model_checking",
+    "kani": [H("c06_classify_corruption_errors", "should_save_corrupted_blob: Bincode and every validation kind except BlobVersion are quarantined, nothing else",
+               ["Storage::should_save_corrupted_blob", "Error::kind"], "all ErrorKind classes used by init, all 12 ValidationErrorKind values", covers=3, timeout=900)],
+    "mir": [ob("rawrecords_all_or_nothing_c06", "ob_record", "rawrecords_all_or_nothing", kwargs={"N": 3}, thorough_kwargs={"N": 5}),
+            ob("read_current_record_step_c06", "ob_record", "read_current_record_step")],
+    "assumptions": COMMON_K + COMMON_M + ["power-loss model at parse level only: a torn tail is any failure of read / parse / validation of some record",
+                                          "outside: real SIGKILL, init's directory handling, index files, recovery tool, writes after recovery"],
+}
